@@ -85,7 +85,7 @@ def xarray_keys(ctx, model, rng, fi, V, n, inp):
 
 
 def run(ctx, rng, model=None, n_quick=10, n_thorough=120):
-    n_files = n_quick if ctx.quick else n_thorough
+    n_files = ctx.n(n_quick, n_thorough)
     for k in range(n_files):
         n, bs, q = gen.geometry_3d(rng, klass=['default', 'general', 'zslice', None][k % 4], max_voxels=30_000)
         n = tuple(max(v, 3) for v in n)
